@@ -111,7 +111,78 @@ def run_case(base, case, acc):
     rules = {d["id"]: gen._tuplify(d["gpr"]) for d in rec["rxns"]}
     orig = {r.id: tuple(r.bounds) for r in model.reactions}
     genes = sorted(g.id for g in model.genes)
-    ident = {"base": base, "case": case, "rules": {k: gen.gpr_text(v) for k, v in rules.items() if v is not None}}
+    # what happened to the model before the knock-outs: nothing, or something that must not matter (a trial knock-out,
+    # a reaction removed or a gene renamed inside a context that has been left), or an in-place rewrite of the rules
+    # (remove_genes / rename_genes) after the rules had already been evaluated for the same knock-out sets
+    pre = rng.choice([None, None, None, "trial-knock-outs", "temporary-reaction-removal", "temporary-renaming", "remove-gene-in-place", "rename-gene-in-place"]) if genes else None
+    pre_gene = rng.choice(genes) if genes else None
+    genes0 = list(genes)
+    acc.add("prehistories", str(pre))
+
+    def apply_pre(mdl):
+        from cobra.manipulation import remove_genes, rename_genes
+
+        if pre is None:
+            return
+        with warnings.catch_warnings():
+            warnings.simplefilter("ignore")
+            if pre in ("trial-knock-outs", "remove-gene-in-place", "rename-gene-in-place"):
+                for g in genes0:
+                    with mdl:
+                        mdl.genes.get_by_id(g).knock_out()
+                        [r.functional for r in mdl.reactions]
+                with mdl:
+                    knock_out_model_genes(mdl, genes0[: max(1, len(genes0) // 2)])
+                    [r.functional for r in mdl.reactions]
+            if pre == "temporary-reaction-removal":
+                cand = [r for r in mdl.reactions if r.gene_reaction_rule]
+                if cand:
+                    with mdl:
+                        mdl.remove_reactions(rng.sample(cand, min(2, len(cand))))
+            elif pre == "temporary-renaming":
+                with mdl:
+                    rename_genes(mdl, {pre_gene: pre_gene + "_tmp"})
+            elif pre == "remove-gene-in-place":
+                remove_genes(mdl, [pre_gene], remove_reactions=False)
+            elif pre == "rename-gene-in-place":
+                rename_genes(mdl, {pre_gene: pre_gene + "_new"})
+
+    def _strip(t, gone):
+        """The rule with the genes in `gone` absent for good; False when nothing is left that could be true."""
+        if t is None:
+            return None
+        if isinstance(t, str):
+            return False if t in gone else t
+        op_, kids = t
+        ks = [_strip(k, gone) for k in kids]
+        if op_ == "and":
+            if any(k is False for k in ks):
+                return False
+            return ks[0] if len(ks) == 1 else ("and", ks)
+        ks = [k for k in ks if k is not False]
+        if not ks:
+            return False
+        return ks[0] if len(ks) == 1 else ("or", ks)
+
+    def _rename(t, a, b):
+        if t is None or isinstance(t, str):
+            return b if t == a else t
+        return (t[0], [_rename(k, a, b) for k in t[1]])
+
+    if pre == "remove-gene-in-place":
+        # a reaction that cannot be catalysed any more keeps its place with an empty rule (remove_reactions=False):
+        # "a reaction without a rule is never affected"
+        rules = {rid: (None if _strip(t, {pre_gene}) is False else _strip(t, {pre_gene})) for rid, t in rules.items()}
+        genes = [g for g in genes if g != pre_gene]
+    elif pre == "rename-gene-in-place":
+        rules = {rid: _rename(t, pre_gene, pre_gene + "_new") for rid, t in rules.items()}
+        genes = sorted((pre_gene + "_new") if g == pre_gene else g for g in genes)
+    apply_pre(model)
+    if pre is not None:
+        acc.count("models_with_a_prehistory")
+        if not compare(acc, model, rules, orig, set(), (), {"base": base, "case": case, "prehistory": pre, "gene": pre_gene}, "after-prehistory"):
+            return
+    ident = {"base": base, "case": case, "prehistory": pre, "prehistory_gene": pre_gene, "rules": {k: gen.gpr_text(v) for k, v in rules.items() if v is not None}}
     nseq = 0
     copied_first = rng.random() < 0.3
     if copied_first and len(model.reactions):
@@ -231,6 +302,7 @@ def run_case(base, case, acc):
                     with warnings.catch_warnings():
                         warnings.simplefilter("ignore")
                         model = gen.build(rec)
+                    apply_pre(model)
                     if copied_first and len(model.reactions):
                         for r in list(model.reactions)[:3]:
                             _c = r.copy()
